@@ -1337,6 +1337,20 @@ func (e *SpecEnv) assumePureContract(fn *ssa.Function, fc *FuncContract, args []
 	x.assumeClosed(o.Implies(o.And(reqs...), o.And(ens...)))
 }
 
+func (x *Exec) opaqueList() map[string]bool {
+	if x.opaque == nil {
+		x.opaque = map[string]bool{}
+		if x.fc != nil {
+			for _, n := range strings.Split(x.rootOpts["opaque"], ",") {
+				if n = strings.TrimSpace(n); n != "" {
+					x.opaque[n] = true
+				}
+			}
+		}
+	}
+	return x.opaque
+}
+
 func (e *SpecEnv) callPure(pk *Pkg, pf *PureFunc, args []Expr) SVal {
 	if len(args) != len(pf.Params) {
 		sfail("pure func %s: %d arguments, want %d", pf.Name, len(args), len(pf.Params))
@@ -1346,6 +1360,43 @@ func (e *SpecEnv) callPure(pk *Pkg, pf *PureFunc, args []Expr) SVal {
 	}
 	if pf.Rec {
 		return e.callRec(pk, pf, args)
+	}
+	{
+		if ol := e.x.opaqueList(); ol[pf.Name] {
+			// `opt opaque f`: within this function's verification f is an uninterpreted function of its arguments
+			// (sound: fewer facts; useful when only f's identity matters and its definition drowns the solver)
+			var ts []*Term
+			var flat func(v Val)
+			flat = func(v Val) {
+				switch t := v.(type) {
+				case *Term:
+					ts = append(ts, t)
+				case StructVal:
+					for _, f := range t.F {
+						flat(f)
+					}
+				default:
+					sfail("opaque %s: argument of unsupported shape %T", pf.Name, v)
+				}
+			}
+			for _, a := range args {
+				av := e.eval(a)
+				if av.C != nil {
+					ts = append(ts, e.o().IntBig(av.C))
+				} else {
+					flat(av.V)
+				}
+			}
+			rt := e.lookupType(pf.Result)
+			srt := IntSort
+			if rt == typBool {
+				srt = BoolSort
+			}
+			if e.o().M.BV {
+				sfail("opaque specification functions need `mode int`")
+			}
+			return SVal{V: e.o().UF("opaque."+pk.Name+"."+pf.Name, srt, ts...), T: rt}
+		}
 	}
 	sub := &SpecEnv{x: e.x, pk: pk, vars: map[string]SVal{}, pre: e.pre, post: e.post, inOld: e.inOld, tparams: e.tparams, depth: e.depth + 1, allocPre: e.allocPre}
 	for i, p := range pf.Params {
